@@ -9,7 +9,8 @@
 // events.Listener, Substrate / Bitcoin FungibleTransferEventHandler) and the REAL RetryMessageHandler of
 // that chain's executor package built over it, one instance each, over a fake chain of many deposits.
 // Calls: ProcessDeposits on a range (scan) / HandleMessage of a retry message for (block, destination).
-// First every call alone, one after the other (three times); then all calls at the same time, each in a
+// First every call alone, one after the other (three times, once more in the opposite order, and once with
+// new objects for every call: a relayer restarted in between); then all calls at the same time, each in a
 // goroutine of its own released together: under GOMAXPROCS(1) with fakes that yield at every node read and
 // every HandleDeposit, under the default GOMAXPROCS likewise, and free-running with every call repeated.
 package main
@@ -370,6 +371,21 @@ func (rig *concRig) round(calls []Call, reps int, concurrent bool) [][][]Group {
 	return res
 }
 
+// reversed: one sequential round with the calls in the opposite order, reported in the order of the calls.
+func (rig *concRig) reversed(calls []Call) [][][]Group {
+	n := len(calls)
+	rev := make([]Call, n)
+	for i, cl := range calls {
+		rev[n-1-i] = cl
+	}
+	got := rig.round(rev, 1, false)[0]
+	run := make([][]Group, 0, len(got))
+	for i := 0; i < n; i++ {
+		run = append(run, got[n-1-i])
+	}
+	return [][][]Group{append(run, got[n:]...)} // (stray groups, if any, stay at the end)
+}
+
 // concLocal runs the case in this process; emit is called with the sequential reference first and then
 // with the runs of every round as soon as the round is over.
 func concLocal(c Case, emit func(seq [][]Group, runs [][][]Group)) {
@@ -377,6 +393,14 @@ func concLocal(c Case, emit func(seq [][]Group, runs [][][]Group)) {
 	seq := rig.round(c.Calls, 3, false)
 	emit(seq[0], nil)
 	emit(nil, seq[1:])
+	// the long-lived objects once more, the calls in the opposite order (other deliveries before each)
+	emit(nil, rig.reversed(c.Calls))
+	// a relayer restarted before every call: new objects per call
+	fresh := make([][]Group, len(c.Calls))
+	for i, cl := range c.Calls {
+		fresh[i] = newConcRig(c).round([]Call{cl}, 1, false)[0][0]
+	}
+	emit(nil, [][][]Group{fresh})
 	// all calls at once, the fakes yield: one processor, then many
 	rig.y.on = true
 	func() {
